@@ -102,7 +102,9 @@ def model_words(story):
         elif st[0] == "feed":
             out += [mword(m) for m in st[1]] + ["e"]
         elif st[0] == "t":
-            out.append(f"t:{st[1] * SEC}")
+            # the loop runs every timer due by then, including one armed (with a zero delay) by a timer that just fired: the model
+            # is told the time twice
+            out += [f"t:{st[1] * SEC}", f"t:{st[1] * SEC}"]
         elif st[0] == "cancel":
             out.append(f"c:{st[1]}")
         elif st[0] == "unsub":
@@ -320,7 +322,7 @@ def parse_model(line, story):
     i = 0
     out = []
     for st in story:
-        n = len(st[1]) + 1 if st[0] == "feed" else 1
+        n = len(st[1]) + 1 if st[0] == "feed" else 2 if st[0] == "t" else 1
         writes, perop, subs = [], {}, {}
         for p in parts[i:i + n]:
             obs, _, sub = p.partition("#")
@@ -614,7 +616,7 @@ def systematic(tier, rng):
 def connect_stories():
     out = []
     for a, other in ((A1, A2), (A2, A1)):
-        for t, dt in ((2, 1), (None, None), (3, 3)):
+        for t, dt in ((2, 1), (None, None), (3, 3), (2, 0)):
             T = t if t is not None else 30
             for extra in ([], [("feed", [("cn1", other, 0, 301)])], [("feed", [("ge", a, 1, 302), ("rr", a, 1, 303)])]):
                 for tail in ([], [("feed", [("cn0", a, 0, 304)])], [("feed", [("cn0", other, 0, 305)])], [("feed", [("cn1", a, 0, 306)])]):
